@@ -792,9 +792,13 @@ func (f *frame) callByContract(v *ssa.Call, callee *ssa.Function, ctr *Contract,
 	for i, r := range rs {
 		env[fmt.Sprintf("result%d", i)] = r
 	}
+	e.freshLo = fmt.Sprintf("(+ alloc0 %d)", e.allocN*allocGap)
+	e.freshHi = fmt.Sprintf("(+ alloc0 %d)", (e.allocN+1)*allocGap)
 	for _, en := range append(append([]Clause{}, ctr.Ensures...), dens...) {
 		e.assume(reach, f.evalSpecIn(callee, en.Src, st, env, pre))
 	}
+	e.freshLo, e.freshHi = "", ""
+	e.tick() // what the caller allocates from here on is newer than what the callee allocated
 	if ctr.Functional && len(rs) == 1 {
 		// same arguments, same result (the callee is pure and nothing it reads changes
 		// between the calls that are compared; assumption listed in the evidence)
